@@ -65,6 +65,7 @@ const (
 	vicGov       = "gov"
 	vicLicensee  = "licensee"
 	vicClient    = "client"
+	vicVal2      = "validator2" // a bonded validator that has not confirmed the open batch yet
 )
 
 type c03Template struct {
@@ -238,6 +239,16 @@ func c03Templates() []c03Template {
 			}
 			// the attacker does not hold the victim's remote key: it signs with its own and claims the victim's (or its own) address
 			return &skywaytypes.MsgConfirmBatch{Metadata: md, Nonce: e.batch, TokenContract: c03ERC20, EthSigner: chain.EthAddr(e.vb.EthKeys[c03Chain]).Hex(), Orchestrator: id["orchestrator"].String(), Signature: hex.EncodeToString(sig)}
+		}},
+		{name: "skyway.MsgConfirmBatch", group: "skyway_claims", victim: vicVal2, principals: []string{"orchestrator"}, build: func(e *c03Env, id map[string]sdk.AccAddress, md vtypes.MsgMetadata) sdk.Msg {
+			// the attacker holds the registered remote key of ANOTHER bonded validator (an accomplice): a valid signature
+			// over the exact batch, by a registered key - but not by the key of the validator named as orchestrator
+			acc := e.c.Vals[0]
+			var sig []byte
+			if b := e.openBatch(); b != nil {
+				sig = chain.EthSign(acc.EthKeys[c03Chain], b.BytesToSign)
+			}
+			return &skywaytypes.MsgConfirmBatch{Metadata: md, Nonce: e.batch, TokenContract: c03ERC20, EthSigner: chain.EthAddr(acc.EthKeys[c03Chain]).Hex(), Orchestrator: id["orchestrator"].String(), Signature: hex.EncodeToString(sig)}
 		}},
 		{name: "skyway.MsgEstimateBatchGas", group: "skyway_claims", victim: vicValidator, build: func(e *c03Env, id map[string]sdk.AccAddress, md vtypes.MsgMetadata) sdk.Msg {
 			return &skywaytypes.MsgEstimateBatchGas{Metadata: md, Nonce: e.batch, TokenContract: c03ERC20, EthSigner: chain.EthAddr(e.vb.EthKeys[c03Chain]).Hex(), Estimate: 21000}
@@ -489,6 +500,8 @@ func c03Case(t *rapid.T, tpls []c03Template) {
 			return e.licensee.Addr
 		case vicClient:
 			return e.client.Addr
+		case vicVal2:
+			return e.c.Vals[2].Addr
 		default:
 			return chain.GovAddr()
 		}
